@@ -93,8 +93,6 @@ structure St where
   resumedIds : List Nat := []
   /-- attribute ids received so far in the running chunk sequence of (who, sid) -/
   chunks : List (Nat × Nat × List Nat) := []
-  /-- what the resumed subscriptions of this boot select (id, selection), from the persisted records -/
-  resSel : List (Nat × String) := []
   /-- real instant at which the report in flight (subscription id) was begun -/
   begun : Option (Nat × Nat) := none
   /-- per subscription id: real instant at which its last successful report was begun -/
@@ -357,12 +355,7 @@ def finalCheck (st : St) (out : String) : Option String :=
                 let dv := (dev.find? (fun p => p.1 == a)).map (·.2)
                 let sv := (view.find? (fun p => p.1 == a)).map (·.2)
                 if dv == sv then none else
-                -- the restart gave this id to another subscription of the same subscriber
-                let swapped := match st.resSel.find? (fun r => r.1 == sid) with
-                  | some (_, dsel) => if sel != "u" && dsel != "u" && dsel != sel then
-                      s!" (the restart re-assigned the subscription ids: the subscriber knows {sid} as a '{sel}' subscription, the device resumed a '{dsel}' subscription under that id)" else ""
-                  | none => ""
-                some s!"change lost: subscription {sid} of subscriber {who} survives, traffic has quiesced, but its view of attribute {a} is {sv.getD 0} while the device has {dv.getD 0}{swapped}")
+                some s!"change lost: subscription {sid} of subscriber {who} survives, traffic has quiesced, but its view of attribute {a} is {sv.getD 0} while the device has {dv.getD 0}")
             else none)
       | _ => none)
 
@@ -400,16 +393,13 @@ def stepOp (st : St) (ws : List String) (out : String) : St × Option String :=
     (cancelWho st1 w, none)
   | "down" :: _ =>
     let st1 := recomputeClean { st with up := false, clean := [none, none] }
-    ({ st1 with expects := [], tab := [], reporting := none, resumed := [], resumedIds := [], resSel := [], chunks := [], begun := none, lastOk := [] }, none)
+    ({ st1 with expects := [], tab := [], reporting := none, resumed := [], resumedIds := [], chunks := [], begun := none, lastOk := [] }, none)
   | ["up"] =>
     if st.up then (st, none) else
     let st1 := recomputeClean { st with up := true, upAt := st.now }
     let (st2, v) := runEvents st1 out
     let res := (allEnts st2).filter (fun e => e.ra.isNone)
-    let rsel := ((events out).map words).filterMap fun w => match w with
-      | ["res", x] => some (parseAlive x)
-      | _ => none
-    ({ st2 with resumed := res.map (fun e => (e.id, e.peer)), resumedIds := res.map (·.id), resSel := rsel.headD [] }, v)
+    ({ st2 with resumed := res.map (fun e => (e.id, e.peer)), resumedIds := res.map (·.id) }, v)
   | ["obs"] =>
     let (st1, v) := runEvents st out
     (st1, first [v, finalCheck st out])
